@@ -87,6 +87,13 @@ check("C14", "exploration", "bounded-exhaustive history exploration on the real 
       "Every op sequence up to depth 2 (quick) / 3 (thorough) over 13 ops (embedded put, chunked put with chunk embeddings, plain put, metadata-only / new-embedding / new-payload update, delete, commit, close+open, leaked handle, vacuum, doctor, doctor with rebuild_vec_index) from a fresh file and from files with committed vectors; after every commit/open/vacuum/doctor the set of frames returned by search_vec(q, m+5) must equal the reference's active embedded frames, frame_embedding(id) the embedding given or carried over, and stats.vector_count their number; plus (hnsw_bench build) index sizes 999/1000/1001 around the representation switch.",
       "", "DESIGN.md §3 C14", "hist")
 
+check("C42", "exploration", "bounded-exhaustive history exploration with before/after observation comparison",
+      "Every op sequence up to depth 2 (quick) / 3 (thorough) over {puts, update with new text, payload-reusing update, deletes, commit, close+open, vacuum, doctor{vacuum}, verify(deep)} from files with committed plain, embedded and chunked documents; around every vacuum the complete logical observation (frame table and metadata, content hash of every active frame, timeline, search answers for every stored word with and without sketch, vector answers) must be identical before and after, the reference model must still match, the file must open and verify(deep) must report Passed.",
+      "The payload of inactive frames is reclaimed by vacuum and is not compared.", "DESIGN.md §3 C42", "hist")
+check("C18", "exploration", "bounded-exhaustive call-sequence enumeration with byte comparison of the file",
+      "Six kinds of committed file state (plain, chunked/updated/deleted, after WAL growth, after an automatic checkpoint, instant index, empty) x 0/1/2 acknowledged-but-uncommitted puts whose writer disappears without committing; on each, every sequence of <= 2 (quick) / <= 3 (thorough) calls from {open_read_only, all frame reads, timeline, search, search_vec, stats, verify, verify(deep)} on a read-only handle. sha256 of the file and the directory listing must be unchanged after the open, after every call and after drop; the read-only view must equal the reference's last committed state.",
+      "Only states this API can produce are used (legacy-lock header bytes are outside the quantifier).", "DESIGN.md §3 C18", "hist")
+
 NOT_APPLICABLE = {}
 
 def main():
